@@ -36,10 +36,112 @@ STORES = ['simple', 'basic']
 MODES = ['absent', 'decline', 'accept']
 
 
+# ---------------------------------------------------------------------------------------------------------
+# ApplyType (casts): a matrix of its own.  Left operand = value to convert: several representatives per type
+# (empty, singleton, typical, nested, multi-byte text, negative / huge / fractional numbers, descending and
+# empty ranges, slices with in-range / out-of-range / descending ranges of every sequence kind).
+# Right operand = the target: only its TYPE matters, so every type appears once as a `(ty T)` value and once
+# as an ordinary value of that type.
+def _txt(s):
+    return '(cl' + ''.join(' %d' % ord(c) for c in s) + ')'
+
+_SLICE_RANGES = ['(r (i 0) (i 2))', '(r (i 0) (i 1))', '(r (i 1) (i 2))', '(r (i 1) (i 1))', '(r (i -1) (i 1))',
+                 '(r (i -1) (i 2))', '(r (i 2) (i 5))', '(r (i 3) (i 3))', '(r (i 2) (i 1))', '(r (i 5) (i 2))',
+                 '(r (i 0) (i -1))', '(r (i 0) (i 0))', '(r ' + fb(0.0) + ' ' + fb(2.0) + ')', '(r ' + fb(0.5) + ' ' + fb(2.5) + ')',
+                 '(r (i 0) ' + fb(1.5) + ')', '(r U U)', '(r (i 0) U)', '(r (i 2147483646) (i 2147483647))']
+_SLICE_SEQS = ['(l (i 1) (i 2) (i 3))', '(l (p (s 5) (i 1)) (b 7) (l (i 1) (i 2)))', '(l)', _txt('abc'), '(cl 233 8364 128512)', '(cl)',
+               '(bl 1 2 3)', '(bl)', '(cat (l (i 1) (i 2)) (i 3))', '(cat (cat (i 1) (l)) (cat (l (i 2) (i 3)) (cl 97)))',
+               '(syl (s 5) (s 6) (s 7))']
+
+CAST_REPS = {
+    'Unit': ['U'],
+    'True': ['T'],
+    'False': ['F'],
+    'Number': ['(i 0)', '(i 5)', '(i -3)', '(i 1)', '(i 97)', '(i 255)', '(i 256)', '(i 300)', '(i -1)', '(i -200)', '(i 1000000)',
+               '(i 2147483647)', '(i -2147483648)', fb(1.5), fb(-0.5), fb(65.0), fb(1e300)],
+    'Type': ['(ty Number)', '(ty List)', '(ty Type)', '(ty Unit)', '(ty CharList)'],
+    'Char': ['(c 97)', '(c 233)', '(c 8364)', '(c 128512)', '(c 48)', '(c 58)', '(c 0)'],
+    'CharList': ['(cl)', '(cl 97)', '(cl 97 98 99)', _txt('12'), _txt('-7'), _txt('+5'), _txt('007'), _txt('-0'), _txt('2147483647'),
+                 _txt('2147483648'), _txt('-2147483648'), _txt('-2147483649'), _txt('99999999999999999999'), _txt(' 5'), _txt('5 '),
+                 _txt('5a'), _txt('-'), _txt('+'), _txt('+-5'), _txt('1.5'), _txt('1e3'), _txt('0x10'), '(cl 1633 1634)',
+                 '(cl 233 8364 128512)', _txt(':ab'), _txt('ab:'), _txt('::a:b::'), _txt(':'), '(cl 10 9)'],
+    'Byte': ['(b 0)', '(b 7)', '(b 97)', '(b 255)'],
+    'ByteList': ['(bl)', '(bl 7)', '(bl 1 2 3)', '(bl 255 0 128)', '(bl 1 2 3 4 5)'],
+    'Symbol': ['(s 5)', '(s 11)', '(s 0)', '(s 18446744073709551615)'],
+    'SymbolList': ['(syl (s 5) (s 6))', '(syl (s 5) (s 11) (s 7))', '(syl (s 5) (i 1))', '(syl (i 2) (s 5) ' + fb(1.5) + ')'],
+    'Pair': ['(p (s 5) (i 1))', '(p (i 1) (i 2))', '(p (s 11) (l (i 1) (i 2)))', '(p (i 1) (b 7))', '(p (p (i 1) (i 2)) (c 97))',
+             '(p (cl 97) (p T (p F U)))'],
+    'Range': ['(r (i 1) (i 4))', '(r (i 0) (i 1))', '(r (i 5) (i 5))', '(r (i 5) (i 2))', '(r (i 3) (i 2))', '(r (i -2) (i 2))',
+              '(r (i 2147483645) (i 2147483647))', '(r (i -2147483648) (i 2147483647))', '(r (i -2147483648) (i -2147483646))',
+              '(r (i 0) (i 999))', '(r ' + fb(0.5) + ' ' + fb(2.5) + ')', '(r (i 0) ' + fb(2.5) + ')', '(r ' + fb(0.5) + ' (i 3))',
+              '(r ' + fb(2.5) + ' ' + fb(0.5) + ')', '(r U U)', '(r (i 1) U)', '(r (cl 97) (i 1))'],
+    'Concatenation': ['(cat (i 1) (i 2))', '(cat (l (i 1) (p (s 5) (i 2))) (i 3))', '(cat (cat (i 1) (l)) (cat (l (i 2) (i 3)) (cl 97)))',
+                      '(cat (l) (l))', '(cat (b 7) (i 1))', '(cat (cl 97 98) (cl 99))'],
+    'Slice': (['(sl %s %s)' % (v, r) for v in _SLICE_SEQS for r in _SLICE_RANGES] +
+              ['(sl (i 5) (r (i 0) (i 1)))', '(sl (sl (l (i 1) (i 2) (i 3)) (r (i 0) (i 2))) (r (i 0) (i 1)))',
+               '(sl (l (i 1)) (i 0))', '(sl (l (i 1)) U)', '(sl U (r (i 0) (i 0)))', '(sl (bl 1 2 3) (r (i 0) (i 2147483647)))']),
+    'Partial': ['(pa (e 1) (i 1))', '(pa (i 2) (i 1))'],
+    'List': ['(l)', '(l (i 1))', '(l (i 1) (p (s 5) (i 2)) (cl 97))', '(l (p (s 5) (i 1)) (p (s 11) (i 2)))',
+             '(l (l (i 1) (i 2)) (l) (l (l (i 3))))', '(l (i 1) (b 7) (i 2))', '(l T F U)', '(l (bl 1 2) (syl (s 5) (s 6)) (r (i 1) (i 2)))'],
+    'Expression': ['(e 1)', '(e 0)'],
+    'External': ['(x 3)'],
+}
+# target types without values of their own are reachable through `(ty T)` only
+CAST_TARGET_TYPES = ['Unit', 'Number', 'Type', 'Char', 'CharList', 'Byte', 'ByteList', 'Symbol', 'SymbolList', 'Pair', 'Range',
+                     'Concatenation', 'Slice', 'Partial', 'List', 'Expression', 'External', 'True', 'False', 'Custom', 'Invalid']
+CAST_TARGET_VALUE = {'Unit': 'U', 'True': 'T', 'False': 'F', 'Number': '(i 5)', 'Type': None, 'Char': '(c 97)', 'CharList': '(cl 97)',
+                     'Byte': '(b 7)', 'ByteList': '(bl 7)', 'Symbol': '(s 5)', 'SymbolList': '(syl (s 5) (s 6))', 'Pair': '(p (i 1) (i 2))',
+                     'Range': '(r (i 1) (i 4))', 'Concatenation': '(cat (i 1) (i 2))', 'Slice': '(sl (l (i 1) (i 2) (i 3)) (r (i 0) (i 2)))',
+                     'Partial': '(pa (i 2) (i 1))', 'List': '(l (i 1))', 'Expression': '(e 1)', 'External': '(x 3)'}
+
+# Reproducers of candidate defects that hang or exhaust memory; NOT part of the default matrix (the no-hang oracles of
+# C07/C08 would trip on them): tools/gen/castgen.py --hazards runs them on their own.
+CAST_HAZARDS = [
+    # float range whose end absorbs the increment: SimpleGarnishData's `while count <= end` never ends
+    ('simple', '(r ' + fb(1e300) + ' ' + fb(1e300) + ')', '(ty List)'),
+    ('simple', '(r ' + fb(9007199254740992.0) + ' ' + fb(9007199254740992.0) + ')', '(ty List)'),
+    ('basic', '(r ' + fb(1e300) + ' ' + fb(1e300) + ')', '(ty List)'),
+    # list length announced from the range: allocation of 2 x len cells (Basic), len items (Simple)
+    ('basic', '(r (i 0) (i 2147483646))', '(ty List)'),
+    ('simple', '(r (i 0) (i 2147483646))', '(ty List)'),
+    ('basic', '(r (i 0) ' + fb(1e15) + ')', '(ty List)'),
+    # `for i in start..=end` over a slice in SimpleGarnishData's text conversion: 2^31 look-ups
+    ('simple', '(sl (l (i 1)) (r (i 0) (i 2147483646)))', '(ty CharList)'),
+    ('simple', '(sl (l (i 1)) (r (i 0) (i 2147483646)))', '(ty List)'),
+]
+
+
+def cast_targets():
+    out = []
+    for t in CAST_TARGET_TYPES:
+        out.append('(ty %s)' % t)
+        if CAST_TARGET_VALUE.get(t):
+            out.append(CAST_TARGET_VALUE[t])
+    return out
+
+
+def cast_pairs():
+    """(left term, right term) for ApplyType: every left representative x every target"""
+    ts = cast_targets()
+    return [(a, b) for lt in CAST_REPS for a in CAST_REPS[lt] for b in ts]
+
+
+def target_type_of_term(t):
+    """the type an ApplyType right operand asks for"""
+    if t.startswith('(ty '):
+        return t[4:-1]
+    return type_of_term(t)
+
+
 def type_of_term(t):
     for k, vs in REPS.items():
         if t in vs:
             return k
+    for k, vs in CAST_REPS.items():
+        if t in vs:
+            return k
+    if t.startswith('(ty '):
+        return 'Type'
     return None
 
 
@@ -48,6 +150,12 @@ def gen_cases(instrs_bin=None, instrs_un=None, stores=STORES, modes=MODES, reps=
     def add(store, instr, mode, a, b):
         cases.append(['OP', str(len(cases)), store, instr, mode, a, b])
     for instr in (instrs_bin if instrs_bin is not None else BINARY):
+        if instr == 'ApplyType' and reps is REPS:
+            for a, b in cast_pairs():
+                for st in stores:
+                    for m in modes:
+                        add(st, instr, m, a, b)
+            continue
         for lt in TYPES:
             for rt in TYPES:
                 for a in reps[lt]:
